@@ -33,29 +33,35 @@ Proof.
   destruct (commit_items_A items) as [l o]; cbn in *. exact IH.
 Qed.
 
+Lemma forallb_ok_true items : forallb (fun it : item => it_ok it && true) items = forallb it_ok items.
+Proof. induction items as [|it items IH]; cbn; [reflexivity|]. now rewrite IH, andb_true_r. Qed.
+
 Lemma commit_done_iff m gs :
-  forallb (shape_ok m) gs = true -> (snd (commit m gs) = Done <-> forallb group_valid gs = true).
+  forallb (shape_ok m) gs = true -> (snd (commit m gs) = Done <-> forallb (group_valid m) gs = true).
 Proof.
-  unfold group_valid. destruct m; cbn [commit]; induction gs as [|g gs IH]; cbn; try tauto; intros S.
-  - destruct (g_ok g); cbn; [|split; discriminate].
+  unfold group_valid. destruct m; cbn [commit]; induction gs as [|g gs IH]; cbn [forallb commit_A commit_B commit_C snd];
+    try tauto; intros S.
+  - rewrite forallb_ok_true. destruct (g_ok g); cbn; [|split; discriminate].
     pose proof (commit_items_A_done_iff (g_items g)) as HA.
     destruct (commit_items_A (g_items g)) as [l o]; cbn in HA. destruct o; cbn.
     + destruct HA as [HA _]. rewrite (HA eq_refl). cbn.
       destruct (commit_A gs) as [l' o']; cbn in *. apply IH. exact S.
     + destruct (forallb it_ok (g_items g)); [destruct HA as [_ HA]; discriminate (HA eq_refl)|].
       cbn. split; discriminate.
-  - destruct (g_ok g && forallb it_ok (g_items g)); cbn; [|split; discriminate].
+  - rewrite forallb_ok_true. destruct (g_ok g); cbn; [|split; discriminate].
+    destruct (forallb it_ok (g_items g)); cbn; [|split; discriminate].
     destruct (commit_B gs) as [l' o']; cbn in *. apply IH. exact S.
-  - apply andb_true_iff in S as [S1 S2]. unfold shape_ok in S1.
+  - cbn [forallb] in S. apply andb_true_iff in S as [S1 S2]. unfold shape_ok in S1.
     destruct (g_ok g); cbn; [|split; discriminate].
     destruct (g_items g) as [|it [|it2 rest]]; try discriminate. cbn.
     destruct (it_ok it); cbn; [|split; discriminate].
+    destruct (it_ser it); cbn; [|split; discriminate].
     destruct (commit_C gs) as [l' o']; cbn in *. apply IH. exact S2.
 Qed.
 
 Lemma commit_steps_done_iff ss :
   forallb (fun s : mode * path * list group => forallb (shape_ok (fst (fst s))) (snd s)) ss = true ->
-  (snd (commit_steps ss) = Done <-> forallb (fun s : mode * path * list group => forallb group_valid (snd s)) ss = true).
+  (snd (commit_steps ss) = Done <-> forallb (fun s : mode * path * list group => forallb (group_valid (fst (fst s))) (snd s)) ss = true).
 Proof.
   induction ss as [|[[m r] gs] ss IH]; cbn; [tauto|]. intros S.
   apply andb_true_iff in S as [S1 S2].
@@ -63,7 +69,7 @@ Proof.
   destruct (commit m gs) as [l o]; cbn in HD. destruct o; cbn.
   - destruct HD as [HD _]. rewrite (HD eq_refl). cbn.
     destruct (commit_steps ss) as [l' o']; cbn in *. apply IH. exact S2.
-  - destruct (forallb group_valid gs); [destruct HD as [_ HD]; discriminate (HD eq_refl)|].
+  - destruct (forallb (group_valid m) gs); [destruct HD as [_ HD]; discriminate (HD eq_refl)|].
     cbn. split; discriminate.
 Qed.
 
